@@ -237,9 +237,9 @@ def enumerate_whats(src):
         yield ('node', [list(x) for x in path])
     for path, node in O.iter_nodes(tree):
         for field, typ, card in O.GRAMMAR.get(node.__class__.__name__, ()):
-            if card == '*' and typ in E.EDIT_TYPES:
+            if card == '*' and (typ in E.EDIT_TYPES or (typ == 'identifier' and node.__class__.__name__ in ('Global', 'Nonlocal'))):
                 n = len(getattr(node, field))
-                if n > 4:
+                if n > (5 if typ == 'identifier' else 4):
                     continue
                 for i in range(n + 1):
                     for j in range(i, n + 1):
